@@ -807,11 +807,7 @@ fn monitor(cx: &Ctx, step: usize, op: &Op, before: &Psbt, after: &Psbt, res: &Re
     for j in tried {
         if !is_final(&after.inputs[j]) && signature_complete(cx, before, j) {
             let origins = if cx.case.inputs[j].tap.is_some() { before.inputs[j].tap_key_origins.len() } else { before.inputs[j].bip32_derivation.len() };
-            let class = if cx.case.inputs[j].tap.is_some() && cx.case.inputs[j].template.contains("pkh(") && !key_ok_for_tr(cx, before, j) {
-                "tr-raw-pkh".to_string()
-            } else {
-                cx.case.inputs[j].outer.name().to_string()
-            };
+            let class = cx.case.inputs[j].outer.name().to_string();
             v(&format!("complete-not-finalized:{}", class),
               format!("{} did not finalize input {} ({}) although it carries the scripts and valid signatures/preimages satisfying the descriptor for this transaction ({} key-origin record(s) present, {} keys): {:?}",
                       op.kind(), j, cx.case.inputs[j].template, origins, cx.case.inputs[j].keys.len(), res));
@@ -900,6 +896,7 @@ fn monitor(cx: &Ctx, step: usize, op: &Op, before: &Psbt, after: &Psbt, res: &Re
 }
 
 /// taproot input with a good key-path signature and the internal key recorded
+#[allow(dead_code)]
 fn key_ok_for_tr(cx: &Ctx, psbt: &Psbt, j: usize) -> bool {
     let m = &cx.case.inputs[j];
     let a = &psbt.inputs[j];
@@ -1110,7 +1107,33 @@ fn tabulate_pkh(cx: &Ctx, psbt: &Psbt, int: &mut Interner, lines: &mut Vec<Strin
     use miniscript::psbt::PsbtInputSatisfier;
     for j in 0..psbt.inputs.len() {
         let m = &cx.case.inputs[j];
-        if m.tap.is_some() || (psbt.inputs[j].partial_sigs.is_empty() && psbt.inputs[j].bip32_derivation.is_empty()) {
+        if m.tap.is_some() {
+            // x-only keys of a tap leaf (since /repo f4ee52fc: tap_key_origins, else tap_script_sigs)
+            if psbt.inputs[j].tap_script_sigs.is_empty() && psbt.inputs[j].tap_key_origins.is_empty() {
+                continue;
+            }
+            let id = int.get(lines, &abs_input(psbt, j));
+            for ki in &m.keys {
+                if !int.pkh_seen.insert((id, *ki)) {
+                    continue;
+                }
+                let x = cx.pool.keys[*ki].xonly();
+                let h = hash160::Hash::hash(&x.serialize());
+                let sat = PsbtInputSatisfier::new(psbt, j);
+                let r = catch_unwind(AssertUnwindSafe(|| Placeholder::<bitcoin::key::XOnlyPublicKey>::PubkeyHash(h, 33).satisfy_self(&sat))).unwrap_or(None);
+                lines.push(
+                    J::obj(vec![
+                        ("t", J::s("pkhtap")),
+                        ("inp", J::N(id as i64)),
+                        ("h", J::S(dig("h160", &h.to_byte_array()))),
+                        ("r", J::opt_s(r.map(|b| dig("x", &b)))),
+                    ])
+                    .to_string(),
+                );
+            }
+            continue;
+        }
+        if psbt.inputs[j].partial_sigs.is_empty() && psbt.inputs[j].bip32_derivation.is_empty() {
             continue;
         }
         let id = int.get(lines, &abs_input(psbt, j));
@@ -1742,6 +1765,14 @@ pub fn run(args: &[String]) {
         lines.push(
             J::obj(vec![
                 ("t", J::s("keyhash")),
+                ("k", J::S(dig("x", &k.xonly().serialize()))),
+                ("h", J::S(dig("h160", &hash160::Hash::hash(&k.xonly().serialize()).to_byte_array()))),
+            ])
+            .to_string(),
+        );
+        lines.push(
+            J::obj(vec![
+                ("t", J::s("keyhash")),
                 ("k", J::S(dig("pk", &k.pk.serialize()))),
                 ("h", J::S(dig("h160", &hash160::Hash::hash(&k.pk.serialize()).to_byte_array()))),
             ])
@@ -1792,6 +1823,16 @@ pub fn run(args: &[String]) {
             .to_string(),
         );
         probes(&cx, cid, &mut int, &mut lines);
+        for m in &case.inputs {
+            if let Some(tap) = &m.tap {
+                for (ki, li, _, _) in &m.tap_script_sigs {
+                    let x = pool.keys[m.keys[*ki]].xonly();
+                    let mut kb = x.serialize().to_vec();
+                    kb.extend_from_slice(&tap.leaves[*li].leaf_hash.to_byte_array());
+                    lines.push(J::obj(vec![("t", J::s("xl")), ("k", J::S(dig("xl", &kb))), ("x", J::S(dig("x", &x.serialize())))]).to_string());
+                }
+            }
+        }
         // initial states: each input at a random stage of preparation
         let n_inits = if tier == "thorough" { 4 } else { 3 };
         for ini in 0..n_inits {
@@ -2007,11 +2048,7 @@ pub fn run(args: &[String]) {
                             J::obj(vec![
                                 ("t", J::s("probe-viol")),
                                 ("case", J::N(cid as i64)),
-                                ("key", J::S(if m.tap.is_some() && m.template.contains("pkh(") {
-                                    "derivation-info-changes-finalization:tr-raw-pkh".to_string()
-                                } else {
-                                    format!("derivation-info-changes-finalization:{}", m.outer.name())
-                                })),
+                                ("key", J::S(format!("derivation-info-changes-finalization:{}", m.outer.name()))),
                                 ("what", J::S(format!(
                                     "input {} ({}): the same signatures finalize differently with key origins ({:?}) and without ({:?})",
                                     j, m.template, ra, rb
